@@ -159,8 +159,12 @@ func (s *Service) AttestAndScheduleAggregate(ctx context.Context, duty *attester
 		return
 	}
 
+	aggregatingCommittees := make(map[phase0.CommitteeIndex]struct{})
 	for _, attestation := range attestations {
 		log := log.With().Uint64("attestation_slot", uint64(attestation.Data.Slot)).Uint64("committee_index", uint64(attestation.Data.Index)).Logger()
+		if _, alreadyAggregating := aggregatingCommittees[attestation.Data.Index]; alreadyAggregating {
+			continue
+		}
 		slotInfoMap, exists := subscriptionInfoMap[attestation.Data.Slot]
 		if !exists {
 			log.Debug().Msg("No slot info; not aggregating")
@@ -213,8 +217,9 @@ func (s *Service) AttestAndScheduleAggregate(ctx context.Context, duty *attester
 				continue
 			}
 			// We are set up as an aggregator for this slot and committee.  It is possible that another validator has also been
-			// assigned as an aggregator, but we're already carrying out the task so do not need to go any further.
-			return
+			// assigned as an aggregator for this committee, but we're already carrying out the task so do not need to go any
+			// further for it.  Other committees at this slot still need their aggregators.
+			aggregatingCommittees[attestation.Data.Index] = struct{}{}
 		}
 	}
 }
